@@ -605,26 +605,42 @@ def leafEntry (path : List Bytes) (kw : Option Bytes) (toks : List Bytes) : List
 
 def ntId (name : String) : Nat := Grammar.nameCodes.idxOf (toText (b name))
 
+/-- how `as_dict` treats a node labelled `l` standing where nonterminal `ctx` is expected -/
+inductive NodeInfo
+  | dt                                        -- `data_transform`: no keyword, children `steps` / `termination`
+  | block (m : Nat) (kw : Option Bytes)       -- `kw { m* }`: pushes `kw` on the stack
+  | leaf (kw : Option Bytes)                  -- `kw literal* ;` (`none` for `set OPTION literal ;`)
+  | unknown                                   -- no production with that label here
+  deriving DecidableEq, Repr
+
+def nodeInfo (ctx : Nat) (l : Option Bytes) : NodeInfo :=
+  if l == some (b "data_transform") then .dt
+  else
+    match formFor ctx l with
+    | Option.none => .unknown
+    | some f =>
+      match starOf f.items with
+      | some m => .block m (keywordOf f)
+      | Option.none => .leaf (keywordOf f)
+
+def pushKw (path : List Bytes) : Option Bytes → List Bytes
+  | some x => path ++ [x]
+  | Option.none => path
+
 /-- entries of a list of sibling nodes that stand where nonterminal `ctx` is expected, below the keywords `path` -/
 def specForest (ctx : Nat) (path : List Bytes) : PForest → List Entry
   | .nil => []
   | .tok _ _ r => specForest ctx path r
   | .node l ks r =>
-    (if l == some (b "data_transform") then
-      match ks with
-      | .node _ steps (.node _ terms .nil) =>
-        specForest (ntId "transform_statement") path steps ++ specForest (ntId "termination_statement") path terms
-      | _ => []
-    else
-      match formFor ctx l with
-      | Option.none => []
-      | some f =>
-        match starOf f.items with
-        | some m =>
-          match keywordOf f with
-          | some k => specForest m (path ++ [k]) ks
-          | Option.none => specForest m path ks
-        | Option.none => leafEntry path (keywordOf f) ks.tokens) ++ specForest ctx path r
+    (match nodeInfo ctx l with
+      | .dt =>
+        match ks with
+        | .node _ steps (.node _ terms .nil) =>
+          specForest (ntId "transform_statement") path steps ++ specForest (ntId "termination_statement") path terms
+        | _ => []
+      | .block m kw => specForest m (pushKw path kw) ks
+      | .leaf kw => leafEntry path kw ks.tokens
+      | .unknown => []) ++ specForest ctx path r
 
 /-- nonterminal of the children of the root (`start: value*`) -/
 def rootCtx : Nat := ntId "value"
@@ -645,27 +661,6 @@ def litStr (s : Bytes) : Bytes := unquote (C12.valueToStringStr s)
 def litBytes (v : Bytes) : Bytes := unquote (C12.valueToString v)
 
 def k (s : String) : Bytes := b s
-
-/-- plain options: (setting, guarded, key) -/
-def plainKeys : List (Nat × Bool × List Bytes) := [
-  (3, false, [k "sleeptime"]), (5, false, [k "jitter"]), (29, false, [k "spawnto_x86"]), (30, false, [k "spawnto_x64"]),
-  (9, false, [k "useragent"]), (58, true, [k "tcp_frame_header"]), (57, true, [k "smb_frame_header"]),
-  (26, false, [k "http-get", k "verb"]), (27, false, [k "http-post", k "verb"]), (10, false, [k "http-post", k "uri"]),
-  (38, false, [k "stage", k "cleanup"]), (41, true, [k "stage", k "sleep_mask"]), (76, false, [k "stage", k "data_store_size"]),
-  (45, true, [k "process-inject", k "min_alloc"]), (16, false, [k "process-inject", k "bof_allocator"]),
-  (60, false, [k "dns-beacon", k "beacon"]), (61, false, [k "dns-beacon", k "get_A"]), (62, false, [k "dns-beacon", k "get_AAAA"]),
-  (63, false, [k "dns-beacon", k "get_TXT"]), (64, false, [k "dns-beacon", k "put_metadata"]),
-  (65, false, [k "dns-beacon", k "put_output"]), (19, false, [k "dns-beacon", k "dns_idle"]),
-  (20, false, [k "dns-beacon", k "dns_sleep"]), (6, false, [k "dns-beacon", k "maxdns"])]
-
-/-- top-level block a key belongs to (`[]` = global option) -/
-def blockOf (key : List Bytes) : List Bytes := key.dropLast
-
-def expPlain (blk : List Bytes) (kv : Nat × PVal) : List Entry :=
-  match plainKeys.find? (·.1 == kv.1) with
-  | some (_, guarded, key) =>
-    if blockOf key == blk && !(guarded && !kv.2.truthy) then [(key, .raw (lit kv.2))] else []
-  | Option.none => []
 
 /-- profile keyword of a transform step (lower-cased name, `_` of `uri_append` written `-`) -/
 def EnStep.kw : EnStep → Bytes
@@ -749,43 +744,87 @@ def expInjT (kw : Bytes) (l : List (Bool × Bytes)) : List Entry :=
     | Option.none => []
   one (k "prepend") (injLast true l) ++ one (k "append") (injLast false l)
 
-/-- process-inject: entries in configuration order -/
-def expInj (kv : Nat × PVal) : List Entry :=
-  match kv with
-  | (43, v) => if v.eqInt 64 then [([k "process-inject", k "startrwx"], .raw (k "true"))]
-               else if v.eqInt 4 then [([k "process-inject", k "startrwx"], .raw (k "false"))] else []
-  | (44, v) => if v.eqInt 64 then [([k "process-inject", k "userwx"], .raw (k "true"))]
-               else if v.eqInt 32 then [([k "process-inject", k "userwx"], .raw (k "false"))] else []
-  | (46, .inj l) => expInjT (k "transform-x86") l
-  | (47, .inj l) => expInjT (k "transform-x64") l
-  | (51, .execute l) => l.flatMap fun i => match i with | some s => expExecItem s | Option.none => []
-  | (52, v) => [([k "process-inject", k "allocator"], .raw (if v.truthy then k "NtMapViewOfSection" else k "VirtualAllocEx"))]
-  | (48, v) => if v.truthy then [([k "process-inject", k "bof_reuse_memory"], .raw (k "true"))] else []
-  | kv => expPlain [k "process-inject"] kv
+/-- what the property says about one setting -/
+inductive SpecAct
+  | skip
+  | plain (key : List Bytes)                      -- `key = "<literal of the value>"`
+  | const (key : List Bytes) (text : Bytes)       -- `key = "<text>"` when the (guarded) value is set
+  | uris                                          -- http-get.uri = the URIs, joined with ", "
+  | recover                                       -- http-get.server.output
+  | client (blk : Bytes)                          -- <blk>.client: static headers / parameters, BUILD groups
+  | perms (key : List Bytes) (t f : Nat)          -- "true" for value `t`, "false" for value `f`
+  | injT (kw : Bytes)                             -- process-inject.<kw>: prepend / append
+  | execute                                       -- process-inject.execute
+  | allocator                                     -- process-inject.allocator
+  | gate                                          -- stage.beacon_gate
+  deriving DecidableEq, Repr
 
-def expStage (kv : Nat × PVal) : List Entry :=
-  match kv with
-  | (78, .gate l) => l.map fun name => ([k "stage", k "beacon_gate"], .kw name)
-  | kv => expPlain [k "stage"] kv
+/-- (setting, zero/empty value counts as absent, what is promised); keys as written in a profile -/
+def specTable : List (Nat × Bool × SpecAct) := [
+  (3, false, .plain [k "sleeptime"]), (5, false, .plain [k "jitter"]),
+  (29, false, .plain [k "spawnto_x86"]), (30, false, .plain [k "spawnto_x64"]), (9, false, .plain [k "useragent"]),
+  (58, true, .plain [k "tcp_frame_header"]), (57, true, .plain [k "smb_frame_header"]),
+  (8, false, .uris), (26, false, .plain [k "http-get", k "verb"]),
+  (11, false, .recover), (12, false, .client (k "http-get")),
+  (27, false, .plain [k "http-post", k "verb"]), (10, false, .plain [k "http-post", k "uri"]), (13, false, .client (k "http-post")),
+  (38, false, .plain [k "stage", k "cleanup"]), (41, true, .plain [k "stage", k "sleep_mask"]),
+  (76, false, .plain [k "stage", k "data_store_size"]), (78, true, .gate),
+  (43, false, .perms [k "process-inject", k "startrwx"] 64 4), (44, false, .perms [k "process-inject", k "userwx"] 64 32),
+  (45, true, .plain [k "process-inject", k "min_alloc"]), (46, false, .injT (k "transform-x86")),
+  (47, false, .injT (k "transform-x64")), (51, false, .execute), (52, false, .allocator),
+  (48, true, .const [k "process-inject", k "bof_reuse_memory"] (k "true")),
+  (16, false, .plain [k "process-inject", k "bof_allocator"]),
+  (60, false, .plain [k "dns-beacon", k "beacon"]), (61, false, .plain [k "dns-beacon", k "get_A"]),
+  (62, false, .plain [k "dns-beacon", k "get_AAAA"]), (63, false, .plain [k "dns-beacon", k "get_TXT"]),
+  (64, false, .plain [k "dns-beacon", k "put_metadata"]), (65, false, .plain [k "dns-beacon", k "put_output"]),
+  (19, false, .plain [k "dns-beacon", k "dns_idle"]), (20, false, .plain [k "dns-beacon", k "dns_sleep"]),
+  (6, false, .plain [k "dns-beacon", k "maxdns"]),
+  (77, true, .const [k "http-beacon", k "data_required"] (k "true"))]
 
-def expGet (uris : List (Option Bytes)) (kv : Nat × PVal) : List Entry :=
-  match kv with
-  | (8, _) => [([k "http-get", k "uri"], .raw (litStr (joinComma (uris.filterMap id))))]
-  | kv => expPlain [k "http-get"] kv
+def specOf (idx : Nat) (v : PVal) : SpecAct :=
+  match specTable.find? (·.1 == idx) with
+  | some (_, guarded, a) => if guarded && !v.truthy then .skip else a
+  | Option.none => .skip
 
-def expHttpBeacon (kv : Nat × PVal) : List Entry :=
-  match kv with
-  | (77, v) => if v.truthy then [([k "http-beacon", k "data_required"], .raw (k "true"))] else []
-  | _ => []
+/-- the block of the dictionary an item belongs to -/
+def specBlock : SpecAct → Option (List Bytes)
+  | .skip => Option.none
+  | .plain key => some key.dropLast
+  | .const key _ => some key.dropLast
+  | .uris => some [k "http-get"]
+  | .recover => some [k "http-get", k "server"]
+  | .client blk => some [blk, k "client"]
+  | .perms key _ _ => some key.dropLast
+  | .injT _ => some [k "process-inject"]
+  | .execute => some [k "process-inject"]
+  | .allocator => some [k "process-inject"]
+  | .gate => some [k "stage"]
 
+def specEntries (uris : List (Option Bytes)) : SpecAct → PVal → List Entry
+  | .plain key, v => [(key, .raw (lit v))]
+  | .const key text, _ => [(key, .raw text)]
+  | .uris, _ => [([k "http-get", k "uri"], .raw (litStr (joinComma (uris.filterMap id))))]
+  | .recover, .recover l => expServer l
+  | .client blk, .transform p => expClient blk p
+  | .perms key t f, v => if v.eqInt t then [(key, .raw (k "true"))] else if v.eqInt f then [(key, .raw (k "false"))] else []
+  | .injT kw, .inj l => expInjT kw l
+  | .execute, .execute l => l.flatMap fun i => match i with | some s => expExecItem s | Option.none => []
+  | .allocator, v => [([k "process-inject", k "allocator"], .raw (if v.truthy then k "NtMapViewOfSection" else k "VirtualAllocEx"))]
+  | .gate, .gate l => l.map fun name => ([k "stage", k "beacon_gate"], .kw name)
+  | _, _ => []
+
+/-- what one setting contributes to the dictionary block `blk` -/
+def expFor (uris : List (Option Bytes)) (blk : List Bytes) (kv : Nat × PVal) : List Entry :=
+  let a := specOf kv.1 kv.2
+  if specBlock a == some blk then specEntries uris a kv.2 else []
+
+/-- the expected dictionary, block by block in the order of a generated profile; inside a block in configuration order -/
 def expectedDict (cfg : List (Nat × PVal)) (uris : List (Option Bytes)) : List Entry :=
-  cfg.flatMap (expPlain []) ++
-  (cfg.flatMap (expGet uris) ++
-    (cfg.flatMap fun kv => match kv with | (11, .recover l) => expServer l | _ => []) ++
-    (cfg.flatMap fun kv => match kv with | (12, .transform p) => expClient (k "http-get") p | _ => [])) ++
-  (cfg.flatMap (expPlain [k "http-post"]) ++
-    (cfg.flatMap fun kv => match kv with | (13, .transform p) => expClient (k "http-post") p | _ => [])) ++
-  cfg.flatMap expStage ++ cfg.flatMap expInj ++ cfg.flatMap (expPlain [k "dns-beacon"]) ++ cfg.flatMap expHttpBeacon
+  let F := fun blk => cfg.flatMap (expFor uris blk)
+  F [] ++
+  (F [k "http-get"] ++ F [k "http-get", k "server"] ++ F [k "http-get", k "client"]) ++
+  (F [k "http-post"] ++ F [k "http-post", k "client"]) ++
+  F [k "stage"] ++ F [k "process-inject"] ++ F [k "dns-beacon"] ++ F [k "http-beacon"]
 
 /-! ### well-formed configurations (decidable) -/
 
